@@ -273,10 +273,36 @@ class Ctx:
     def inflight(self, case):
         """record the case about to be handed to in-process implementation code that may abort the interpreter
         (C++ assert / segfault); the supervisor turns such a death into a VIOLATION with this case as replay"""
+        self.last_inflight = case
         path = os.environ.get("WHVERIF_INFLIGHT")
         if path:
             with open(path, "w") as f:
                 json.dump(case, f, default=str)
+
+
+def guarded_run(module, ctx):
+    """module.run(ctx); an exception that escapes it is either the implementation's (a frame of whatshap / a .pyx file is
+    on the traceback: the real code raised on an input the check considers valid and the check did not expect it) -> a
+    property-level failure with the in-flight case as replay, or the harness's own -> infrastructure error (False)."""
+    import traceback
+    try:
+        module.run(ctx)
+        return True
+    except Infra:
+        raise
+    except Exception as e:
+        tb = traceback.extract_tb(e.__traceback__)
+        impl = any(f.filename.endswith((".pyx", ".pxd")) or ("/whatshap/" in f.filename and "/harness/" not in f.filename) for f in tb)
+        text = "".join(traceback.format_exception(type(e), e, e.__traceback__))
+        if not impl:
+            print("[infra] the check itself raised:\n" + text, file=sys.stderr)
+            return False
+        where = next((f"{os.path.basename(f.filename)}:{f.lineno} {f.name}" for f in reversed(tb)
+                      if f.filename.endswith((".pyx", ".pxd")) or "/whatshap/" in f.filename), "?")
+        ctx.fail(f"the implementation raised {type(e).__name__}: {str(e)[:200]} at {where} on an input the check treats as valid",
+                 {"in_flight": getattr(ctx, "last_inflight", None), "traceback": text[-1500:]},
+                 key="unexpected-exception-" + type(e).__name__)
+        return True
 
 
 def run_check(prop, tier, seed, module, replay=None, level="proof", need_overlay=True):
@@ -307,14 +333,16 @@ def run_check(prop, tier, seed, module, replay=None, level="proof", need_overlay
         ctx.extra["anchors_changed"] = changed
         if changed and not replay:
             ctx.scale = 3   # the anchored code moved since the model was validated: search harder
-        module.run(ctx)
+        if not guarded_run(module, ctx):
+            return 2
         if ctx.disagreements and not ctx.fails and not replay:
             # correspondence broke but no property failure yet: enlarged failing-input search
             # (DESIGN §2 step 4): same module, 4x the sizes, fresh seed; counters accumulate
             ctx.scale = 4
             ctx.rng = random.Random(seed * 7919 + 17)
             ctx.escalated = True
-            module.run(ctx)
+            if not guarded_run(module, ctx):
+                return 2
         if ctx._model:
             ctx._model.close()
     except Infra as e:
